@@ -62,11 +62,14 @@ pub fn stats_from_json(v: &Value, prop: &'static str) -> (Stats, Vec<Found>) {
     (s, found)
 }
 
-/// child side: run shard k of n single-threaded, reporting progress on stdout
-pub fn worker_main(prop: &str, tier: Tier, seed: u64, k: u64, n: u64, runs: u64, skip: &[u64]) -> i32 {
-    let Some(spec) = engine::solo_spec(prop) else { return 2 };
+/// child side: run shard k of n single-threaded, reporting progress on stdout. The shard is
+/// processed in chunks of the global index space; after each chunk a partial result line `R` is
+/// printed, so that a worker that dies loses at most one chunk of statistics and its replacement
+/// resumes at the chunk in flight (`start`).
+pub fn worker_main(prop: &str, tier: Tier, seed: u64, k: u64, n: u64, runs: u64, skip: &[u64], start: u64) -> i32 {
+    let Some(spec) = engine::spec_for(prop, tier) else { return 2 };
     let known = engine::load_known();
-    let total = runs + engine::enum_count(&spec, tier);
+    let total = runs + engine::deep_count(&spec, tier) + engine::enum_count(&spec, tier);
     let out = std::io::stdout();
     let cb = |i: u64, begin: bool| {
         let mut o = out.lock();
@@ -74,21 +77,34 @@ pub fn worker_main(prop: &str, tier: Tier, seed: u64, k: u64, n: u64, runs: u64,
         let _ = o.flush();
     };
     let skipset: std::collections::HashSet<u64> = skip.iter().copied().collect();
-    let res = engine::sweep_indices(total, 1e9, &known, (k, n), 1, Some(&cb), |i, stats| {
-        if skipset.contains(&i) {
-            return (Scenario::solo(crate::desc::Config::default_for(0), crate::desc::Entropy::Rand(0)), vec![]);
-        }
-        engine::run_one(&spec, seed, tier, i, runs, stats)
-    });
+    let chunk = 8192u64;
+    let mut lo = start;
+    while lo < total {
+        let hi = (lo + chunk).min(total);
+        let res = engine::sweep_indices(hi, 1e9, &known, (k, n), 1, Some(&cb), |i, stats| {
+            if i < lo || skipset.contains(&i) {
+                return (Scenario::solo(crate::desc::Config::default_for(0), crate::desc::Entropy::Rand(0)), vec![]);
+            }
+            engine::run_one(&spec, seed, tier, i, runs, stats)
+        });
+        let mut o = out.lock();
+        let _ = writeln!(o, "R {} {}", hi, stats_to_json(&res.stats, &res.found));
+        let _ = o.flush();
+        lo = hi;
+    }
     let mut o = out.lock();
-    let _ = writeln!(o, "R {}", stats_to_json(&res.stats, &res.found));
+    let _ = writeln!(o, "D");
     let _ = o.flush();
     0
 }
 
 struct WorkerState {
     in_flight: Option<(u64, Instant)>,
-    result: Option<Value>,
+    /// partial results not yet merged by the supervisor
+    results: Vec<Value>,
+    /// first index not covered by a received partial result
+    next_start: u64,
+    finished: bool,
     done_reading: bool,
 }
 
@@ -99,7 +115,7 @@ struct Worker {
     skip: Vec<u64>,
 }
 
-fn spawn_worker(prop: &str, tier: Tier, seed: u64, k: u64, n: u64, runs: u64, skip: &[u64]) -> std::io::Result<Worker> {
+fn spawn_worker(prop: &str, tier: Tier, seed: u64, k: u64, n: u64, runs: u64, skip: &[u64], start: u64) -> std::io::Result<Worker> {
     let exe = std::env::current_exe()?;
     let mut child = Command::new(exe)
         .args([
@@ -110,13 +126,14 @@ fn spawn_worker(prop: &str, tier: Tier, seed: u64, k: u64, n: u64, runs: u64, sk
             &k.to_string(),
             &n.to_string(),
             &runs.to_string(),
-            &skip.iter().map(|x| x.to_string()).collect::<Vec<_>>().join(","),
+            &format!("s{}", skip.iter().map(|x| x.to_string()).collect::<Vec<_>>().join(",")),
+            &start.to_string(),
         ])
         .stdin(Stdio::null())
         .stdout(Stdio::piped())
         .stderr(Stdio::null())
         .spawn()?;
-    let state = Arc::new(Mutex::new(WorkerState { in_flight: None, result: None, done_reading: false }));
+    let state = Arc::new(Mutex::new(WorkerState { in_flight: None, results: vec![], next_start: start, finished: false, done_reading: false }));
     let st = state.clone();
     let stdout = child.stdout.take().unwrap();
     std::thread::spawn(move || {
@@ -129,7 +146,15 @@ fn spawn_worker(prop: &str, tier: Tier, seed: u64, k: u64, n: u64, runs: u64, sk
             } else if line.starts_with("E ") {
                 g.in_flight = None;
             } else if let Some(rest) = line.strip_prefix("R ") {
-                g.result = serde_json::from_str(rest).ok();
+                let mut it = rest.splitn(2, ' ');
+                let hi = it.next().and_then(|x| x.parse::<u64>().ok());
+                let js = it.next().and_then(|x| serde_json::from_str::<Value>(x).ok());
+                if let (Some(hi), Some(js)) = (hi, js) {
+                    g.results.push(js);
+                    g.next_start = hi;
+                }
+            } else if line.trim() == "D" {
+                g.finished = true;
             }
         }
         st.lock().unwrap().done_reading = true;
@@ -234,19 +259,16 @@ pub fn exec_scenario_main(prop: &str, path: &str) -> i32 {
 pub fn sweep_procs(prop: &'static str, tier: Tier, seed: u64, runs: u64, wall_cap_s: f64, hang_budget: Duration) -> ProcOutcome {
     let t0 = Instant::now();
     let n = engine::n_threads() as u64;
-    let spec = engine::solo_spec(prop).expect("spec");
-    let mut workers: Vec<Option<Worker>> = (0..n).map(|k| spawn_worker(prop, tier, seed, k, n, runs, &[]).ok()).collect();
+    let spec = engine::spec_for(prop, tier).expect("spec");
+    if engine::deep_count(&spec, tier) > 0 {
+        engine::export_deep_patterns(seed);
+    }
+    let mut workers: Vec<Option<Worker>> = (0..n).map(|k| spawn_worker(prop, tier, seed, k, n, runs, &[], 0).ok()).collect();
     let mut stats = Stats::default();
     let mut found: Vec<Found> = vec![];
     let mut restarts = 0u64;
     let mut capped = false;
-    let scenario_of = |i: u64| -> Scenario {
-        if i >= runs {
-            engine::enum_scenario(&spec, i - runs)
-        } else {
-            engine::draw_for(&spec, seed, tier, i)
-        }
-    };
+    let scenario_of = |i: u64| -> Scenario { engine::scenario_of(&spec, seed, tier, i, runs) };
     loop {
         let mut alive = 0;
         for slot in workers.iter_mut() {
@@ -267,7 +289,16 @@ pub fn sweep_procs(prop: &'static str, tier: Tier, seed: u64, runs: u64, wall_ca
                     let mut skip = w.skip.clone();
                     skip.push(i);
                     restarts += 1;
-                    *slot = spawn_worker(prop, tier, seed, w.k, n, runs, &skip).ok();
+                    let (partials, next_start) = {
+                        let mut g = w.state.lock().unwrap();
+                        (std::mem::take(&mut g.results), g.next_start)
+                    };
+                    for r in partials {
+                        let (s2, f2) = stats_from_json(&r, prop);
+                        stats.merge(s2);
+                        found.extend(f2);
+                    }
+                    *slot = spawn_worker(prop, tier, seed, w.k, n, runs, &skip, next_start).ok();
                     alive += 1;
                     continue;
                 }
@@ -280,22 +311,24 @@ pub fn sweep_procs(prop: &'static str, tier: Tier, seed: u64, runs: u64, wall_ca
                     while !w.state.lock().unwrap().done_reading && t1.elapsed() < Duration::from_secs(5) {
                         std::thread::sleep(Duration::from_millis(5));
                     }
-                    let mut g = w.state.lock().unwrap();
-                    if let Some(r) = g.result.take() {
-                        let (s, f) = stats_from_json(&r, prop);
-                        stats.merge(s);
-                        found.extend(f);
-                        drop(g);
+                    let (partials, next_start, finished, inflight) = {
+                        let mut g = w.state.lock().unwrap();
+                        (std::mem::take(&mut g.results), g.next_start, g.finished, g.in_flight)
+                    };
+                    for r in partials {
+                        let (s2, f2) = stats_from_json(&r, prop);
+                        stats.merge(s2);
+                        found.extend(f2);
+                    }
+                    if finished {
                         *slot = None;
                     } else {
-                        // died without a result: attribute to the run in flight
+                        // died without finishing: attribute to the run in flight
                         use std::os::unix::process::ExitStatusExt;
                         let how = match status.signal() {
                             Some(sig) => format!("signal {}", sig),
                             None => format!("exit {}", status.code().unwrap_or(-1)),
                         };
-                        let inflight = g.in_flight;
-                        drop(g);
                         let mut skip = w.skip.clone();
                         if let Some((i, _)) = inflight {
                             let sc = scenario_of(i);
@@ -305,16 +338,16 @@ pub fn sweep_procs(prop: &'static str, tier: Tier, seed: u64, runs: u64, wall_ca
                                 violation: Violation::new(prop, format!("process-death({})", how), format!("worker process died ({}) while executing run {}", how, i)),
                             });
                             skip.push(i);
+                            stats.bump("fault.observed.worker_process_deaths");
                         } else {
                             stats.bump("worker.died_between_runs");
                         }
                         restarts += 1;
-                        if restarts > 64 {
+                        if restarts > 400 {
                             *slot = None;
                         } else {
-                            // the partial statistics of the dead worker are lost; the restarted worker
-                            // re-executes the shard (deterministic) minus the fatal runs
-                            *slot = spawn_worker(prop, tier, seed, w.k, n, runs, &skip).ok();
+                            // at most the chunk in flight is re-executed (deterministic), minus the fatal runs
+                            *slot = spawn_worker(prop, tier, seed, w.k, n, runs, &skip, next_start).ok();
                             alive += 1;
                         }
                     }
@@ -339,6 +372,9 @@ pub fn sweep_procs(prop: &'static str, tier: Tier, seed: u64, runs: u64, wall_ca
             break;
         }
         std::thread::sleep(Duration::from_millis(50));
+    }
+    if let Ok(p) = std::env::var("PFSIM_DEEP_FILE") {
+        let _ = std::fs::remove_file(p);
     }
     found.sort_by_key(|f| f.index);
     ProcOutcome { stats, found, wall_s: t0.elapsed().as_secs_f64(), worker_restarts: restarts, capped }
